@@ -46,6 +46,9 @@
 
 #include <memory>
 #include <ctime>
+#include <fcntl.h>
+#include <sys/wait.h>
+#include <sys/resource.h>
 
 using namespace vh;
 using ref::LD;
@@ -73,6 +76,94 @@ static const bool AVOID_FLAG_INTRINSIC  = false || avoidEnv("intrinsic"); // Opt
 // 2 variables x 3 structures x 4 directions; also seen with 1 variable x 2 structures. The generator therefore
 // draws maxiter <= 30 for that class so that the class is still exercised within the case budget.
 static const int CONSTSILL_MAXITER = getenv("C17_CONSTSILL_MAXITER") ? atoi(getenv("C17_CONSTSILL_MAXITER")) : 30;
+
+
+// ------------------------------------------------------------------------------------------------
+// Root-cause keys. Every open finding of the library has ONE key (see reports/C17_open_findings.json). A case that
+// belongs to the input class of such a finding reports all its failures under that key (ROOTKEY); everything else keeps
+// the specific key of the oracle, so that a new defect is never folded into a known one by accident.
+// ------------------------------------------------------------------------------------------------
+static const char* K_REFUSAL   = "C17:refusal-by-exception";                                   // D1 remainder
+static const char* K_INTRINSIC = "C17:flag-intrinsic-crash";                                   // D2
+static const char* K_LOSTBOUND = "C17:cons:bounds-lost-after-nonconverged-pass-and-reduction"; // D3
+static const char* K_AIC       = "C17:cons:sill-bound-applied-to-AIC-when-goulard-off";        // D4
+static const char* K_CSMULTI   = "C17:constant-sill-multivariate:model_auto";                  // D5 (model_auto.cpp)
+static const char* K_CSMULTI2  = "C17:constant-sill-multivariate:AModelOptimSills";            // D5 (copy in AModelOptimSills.cpp)
+static const char* K_SAMEROT   = "C17:samerot-reduction-crash";                                // D6
+static const char* K_SCALE     = "C17:scale-factor-blowup";                                    // D7
+static const char* K_CSREDUCE  = "C17:cons:constant-sill-not-reimposed-after-reduction";       // D8
+static const char* K_ISO2D     = "C17:opt:lockIso2d-ignored:ndim=3";                           // D9
+static const char* K_SPHERE    = "C17:sphere-only-structure-accepted-in-Rn";                   // D11
+static const char* K_EMPTYLAG  = "C17:ModelOptimSillsVario-empty-lag-overflow";                // D14
+static const char* K_NODD      = "C17:model_fitting_sills-unallocated-dd";                     // D15
+static const char* K_NOEXPAND  = "C17:constant-sill-not-expanded";                             // D16
+static std::string ROOTKEY;
+struct KCtx
+{
+  Ctx& c;
+  bool verbose;
+  KCtx(Ctx& cc) : c(cc), verbose(cc.verbose) {}
+  std::string k(const std::string& key) const { return ROOTKEY.empty() ? key : ROOTKEY; }
+  bool check(const std::string& o, const std::string& key, bool ok, double err, double tol, const std::string& d = "") { return c.check(o, k(key), ok, err, tol, d); }
+  bool close(const std::string& o, const std::string& key, double a, double b, double tol, const std::string& d = "") { return c.close(o, k(key), a, b, tol, d); }
+  bool truth(const std::string& o, const std::string& key, bool ok, const std::string& d = "") { return c.truth(o, k(key), ok, d); }
+  void skip(const std::string& r) { c.skip(r); }
+  void probe(const std::string& r) { c.probe(r); }
+  void putn(const std::string& a, double v) { c.putn(a, v); }
+  void puts(const std::string& a, const std::string& v) { c.puts(a, v); }
+};
+
+// Run 'fn' in a forked child (the input classes of the open findings that abort the process). The verdict rests on the
+// child's exit status and on its CPU time (not on wall time): 0 = finished, 1 = died (sanitizer report, assertion,
+// signal), 2 = exceeded the CPU budget. 'what' receives the first diagnostic line of the child.
+static int runInChild(const std::function<void()>& fn, double cpuLimit, std::string& what)
+{
+  fflush(nullptr);
+  pid_t pid = fork();
+  if (pid < 0) return 0;
+  if (pid == 0)
+  {
+    int fd = open("c17_child.err", O_WRONLY | O_CREAT | O_TRUNC, 0644);
+    if (fd >= 0) { dup2(fd, 2); close(fd); }
+    int nul = open("/dev/null", O_WRONLY);
+    if (nul >= 0) { dup2(nul, 1); close(nul); }
+    struct rlimit rl;
+    rl.rlim_cur = (rlim_t)cpuLimit; rl.rlim_max = (rlim_t)cpuLimit + 5;
+    setrlimit(RLIMIT_CPU, &rl); // SIGXCPU after cpuLimit seconds of CPU
+    try { fn(); } catch (...) {}
+    _exit(0);
+  }
+  int status = 0;
+  while (waitpid(pid, &status, 0) < 0 && errno == EINTR) {}
+  if (WIFEXITED(status) && WEXITSTATUS(status) == 0) return 0;
+  what.clear();
+  FILE* f = fopen("c17_child.err", "r");
+  if (f)
+  {
+    char line[600];
+    while (fgets(line, sizeof line, f))
+      if (strstr(line, "ERROR: ") || strstr(line, "runtime error") || strstr(line, "Assertion"))
+      {
+        what = line;
+        // keep the stable part: drop addresses and pids
+        size_t p0 = what.find("ERROR: ");
+        if (p0 != std::string::npos) what = what.substr(p0);
+        size_t p1 = what.find(" on address");
+        if (p1 != std::string::npos) what = what.substr(0, p1);
+        if (what.size() > 200) what = what.substr(0, 200);
+        while (!what.empty() && (what.back() == '\n' || what.back() == ' ')) what.pop_back();
+        break;
+      }
+    fclose(f);
+  }
+  if (WIFSIGNALED(status) && (WTERMSIG(status) == SIGXCPU || WTERMSIG(status) == SIGKILL) && what.empty())
+  {
+    what = fmt("CPU budget of %.0f s exceeded", cpuLimit);
+    return 2;
+  }
+  if (what.empty()) what = fmt("child status 0x%x", status);
+  return 1;
+}
 
 // ------------------------------------------------------------------------------------------------
 // structure catalogue (what the library itself says about each type, asked once through the public API)
@@ -384,7 +475,7 @@ static void mutateVario(Rng& r, const Cfg& g, Vario* v)
   }
 }
 
-static std::unique_ptr<Vario> makeHandVario(Rng& r, const Cfg& g)
+static std::unique_ptr<Vario> makeHandVario(Rng& r, const Cfg& g, const Truth* given = nullptr, double noiseGiven = -1)
 {
   auto vp = makeVarioParam(g);
   std::unique_ptr<Vario> v(Vario::create(*vp));
@@ -392,9 +483,10 @@ static std::unique_ptr<Vario> makeHandVario(Rng& r, const Cfg& g)
   v->setCalculByName("vg");
   v->internalVariableResize();
   v->internalDirectionResize();
-  Truth t = genTruth(r, g);
+  Truth t = given ? *given : genTruth(r, g);
   double mult = g.patho == P_HUGE ? 1e12 : (g.patho == P_TINY ? 1e-12 : 1.);
   double noise = g.patho == P_NOISY ? 0.5 : (r.coin(0.5) ? 0. : 0.05);
+  if (noiseGiven >= 0) noise = noiseGiven;
   // variances = total sills of the truth (bounded structures) -- only used by the library as initial values
   VectorDouble vars(g.nvar * g.nvar, 0.);
   for (int iv = 0; iv < g.nvar; iv++)
@@ -691,7 +783,7 @@ static std::string typesKey(const Cfg& g)
   return s;
 }
 
-static void validateModel(Ctx& c, const Cfg& g, Model* m, const std::string& ep, double gmax)
+static void validateModel(KCtx c, const Cfg& g, Model* m, const std::string& ep, double gmax)
 {
   int ncov = m->getCovaNumber();
   std::string cls = "nvar=" + std::to_string(g.nvar);
@@ -947,7 +1039,7 @@ static void validateModel(Ctx& c, const Cfg& g, Model* m, const std::string& ep,
 }
 
 // save / reload / use in kriging
-static void useModel(Rng& r, Ctx& c, const Cfg& g, Model* m)
+static void useModel(Rng& r, KCtx c, const Cfg& g, Model* m)
 {
   std::string cls = std::string(SRCN[g.src]) + ":nvar=" + std::to_string(g.nvar);
   ASerializable::unsetContainerName();
@@ -1079,7 +1171,7 @@ static void useModel(Rng& r, Ctx& c, const Cfg& g, Model* m)
 // sill fitting alone (Goulard) on a model whose structures, ranges and rotations are given:
 // ModelOptimSillsVario::fit (AModelOptimSills.cpp) and model_fitting_sills (model_auto.cpp)
 // ------------------------------------------------------------------------------------------------
-static void sillsCase(Rng& r, Ctx& c, Cfg& g, Vario* vario, double gmax)
+static void sillsCase(Rng& r, KCtx c, Cfg& g, Vario* vario, double gmax, int forceApi = -1, int forceConst = -1, int forceExpand = -1)
 {
   bool newApi  = r.coin(0.6);
   bool constS  = r.coin(0.3);
